@@ -8,7 +8,7 @@ import json
 from harness import tlc, tracecheck, sendpath_drv as sp
 from harness.common import machinery_failure
 
-INV = ["I_StreamIsQueuedFrames", "I_NoStall", "I_AllWritten", "I_NoCrash", "I_Lock"]
+INV = ["I_StreamIsQueuedFrames", "I_NoStall", "I_AllWritten", "I_NoCrash", "I_Lock", "I_NeverSendsWhenFull"]
 
 
 def _judge(chk, traces, prop, info):
@@ -175,6 +175,22 @@ def stage_threads(chk, quick, rng, pid):
         nser = [i for i in info if info[i]["kind"] == "serial" and not info[i]["feasible_on_this_code"]]
         if nser:
             chk.model_drift("send path: %d serial schedules of SendPath (Locked) could not be followed by the code: %s" % (len(nser), info[nser[0]]["why_not"]))
+    # the serial behaviours as whole calls with the behaviour's chunking (no source-line mapping needed: these run on any shape of the code)
+    c3 = {"Lens": [3, 2], "NetFrames": [1], "MinerFrames": [2], "MaxChunk": 2, "EmitHist": True, "Locked": True}
+    ser3 = tracecheck.model("MC_SendPath", "MSpec", c3, workers=1, timeout=900, invariants=["I_Emit"])
+    tlc.require_clean(ser3, "MC_SendPath serial schedules, whole calls")
+    serial3 = tlc.tagged(ser3, "HIST")
+    chk.states += ser3.distinct
+    if len(serial3) < 5:
+        return machinery_failure(pid, "only %d serial behaviours for the whole-call replay" % len(serial3))
+    nw = 120 if quick else 2000
+    for h in (rng.sample(serial3, nw) if len(serial3) > nw else serial3):
+        tid += 1
+        t = sp.replay_calls([3, 2], [1], [2], h[0], tid)
+        traces.append(t)
+        info[tid] = {"kind": "serial, whole calls", "model_outcome": h[1], "calls": t["calls"]}
+        chk.case(("calls", json.dumps(t["calls"])), nontrivial=any(c_[0] == "cansend" and len(c_[2]) > 0 and c_[2][0] < 10 ** 6 for c_ in t["calls"]))
+    chk.extra["send_path_schedules"]["serial_whole_call_replays"] = min(nw, len(serial3))
     for t in sp.stress(6 if quick else 60, 300, tid0=tid):
         traces.append(t)
         info[t["id"]] = {"kind": "free-running threads", "messages": 300}
